@@ -366,6 +366,22 @@ def _quantile_case(args):
                          "kde": kde_type},
                         f"n={n} q={q}: fraction below level = {frac}",
                         {"kde": kde_type}))
+                # invalid (NaN / +-inf) events among the positions must not
+                # move the level
+                xd = np.concatenate([x, [np.inf, 50.0, np.nan, -np.inf, 1.0]])
+                yd = np.concatenate([y, [0.1, -np.inf, 0.1, np.nan, np.inf]])
+                levd = kde_contours.get_quantile_levels(
+                    density=dens, x=xm, y=ym, xp=xd, yp=yd, q=q,
+                    normalize=False)
+                if not np.isclose(levd, lev, rtol=1e-12, atol=0):
+                    out.append(violation(
+                        "dclab.kde_contours:get_quantile_levels",
+                        "invalid-events-influence",
+                        {"kind": "quantile", "seed": seed, "n": n, "q": q,
+                         "kde": kde_type},
+                        f"n={n} q={q}: level {levd} with five NaN/inf "
+                        f"events appended, {lev} without",
+                        {"kde": kde_type}))
     return cnt, out
 
 
